@@ -17,7 +17,9 @@ RULE = ('index forms = every admissible form of a bounded grammar (ints, slices 
         'lists, tuples, ellipsis, non-tuple index into N-D source, flat and non-flat) for source '
         'shapes (4,), (2,3), (3,2,2); full product with the placement {connect, promotes at 1 and 2 '
         'levels, auto-IVC, explicit-output source, implicit-state source} plus unit pairs and solver '
-        'contexts on a reduced index alphabet; non-trivial = model ran and the index selects >= 2 '
+        'contexts on a reduced index alphabet, plus solver scaling on the source (scalar and array '
+        'ref/ref0) x placement x unit pair on every 3rd (quick) / every (thorough) index form; '
+        'non-trivial = model ran and the index selects >= 2 '
         'entries that are not the identity selection or a unit conversion is active; each '
         'configuration is enumerated once')
 LEVEL_TEXT = ('Each configuration is built as a real model; every continuous input is compared with the '
@@ -155,9 +157,43 @@ def cases(tier, seed):
                         out.append({'shape': shape, 'idx': idx, 'flat': flat, 'where': where,
                                     'units': 'm_cm' if fi % 8 == 0 else 'none', 'ctx': ctx,
                                     'palette': pal})
+    # solver scaling declared on the source (scalar ref/ref0, array ref and ref0): the transfer works
+    # on scaled vectors, so the index map and the unit map must also be applied to the scalers
+    for shape in SHAPES:
+        forms = _forms(shape, tier)
+        for fi, (idx, flat) in enumerate(forms):
+            r = _np_ok(shape, idx, flat)
+            if r is None or r.size == 0 or _slice_oob(idx, shape, flat):
+                continue
+            if fi % (3 if tier == 'quick' else 1):
+                continue
+            for ss in SSCALE:
+                for where in ('connect_p', 'prom2', 'src_explicit', 'src_implicit'):
+                    for u in ('none', 'm_cm', 'degC_degF'):
+                        if where == 'src_implicit' and u != 'none':
+                            continue
+                        out.append({'shape': shape, 'idx': idx, 'flat': flat, 'where': where,
+                                    'units': u, 'ctx': 'runonce', 'palette': pal, 'sscale': ss})
     for k in range(6):
         out.append({'discrete': k})
     return out
+
+
+SSCALE = ['ref_ref0', 'arr_ref_ref0', 'arr_ref', 'arr_ref0']
+
+
+def _sscale(kind, shape):
+    n = int(np.prod(shape))
+    k = np.arange(n, dtype=float)
+    ref = (2.0 + 0.5 * k).reshape(shape)
+    ref0 = (-1.0 + 0.25 * k * (-1.0) ** k).reshape(shape)
+    if kind == 'ref_ref0':
+        return {'ref': 4.0, 'ref0': -0.5}
+    if kind == 'arr_ref_ref0':
+        return {'ref': ref.tolist(), 'ref0': ref0.tolist()}
+    if kind == 'arr_ref':
+        return {'ref': ref.tolist(), 'ref0': 0.75}
+    return {'ref': 3.0, 'ref0': ref0.tolist()}
 
 
 def _cls(case):
@@ -172,8 +208,9 @@ def _cls(case):
             return 'Sneg' if (t.step is not None and t.step < 0) else 'S'
         return 'A'
     c = 'T(' + ','.join(one(t) for t in idx) + ')' if isinstance(idx, tuple) else one(idx)
-    return '%s/%dD%s/%s/%s/%s' % (c, len(case['shape']), 'flat' if case['flat'] else '',
-                                  case['where'], case['units'], case['ctx'])
+    return '%s/%dD%s/%s/%s/%s%s' % (c, len(case['shape']), 'flat' if case['flat'] else '',
+                                    case['where'], case['units'], case['ctx'],
+                                    '/' + case['sscale'] if case.get('sscale') else '')
 
 
 def _build_spec(case):
@@ -217,6 +254,9 @@ def _build_spec(case):
         kinds = {'c1': 'impquad' if where == 'src_implicit' else 'quad', 'c3': 'quad'}
         kw.update(out_shapes={'c1': shape}, conn_idx={'c2.x0': {'chain': [(idx, flat)]}},
                   units=units, kinds=kinds, hier='flat')
+    if case.get('sscale'):
+        src = 'ivc.p' if where in ('connect_p', 'prom1', 'prom2') else 'c1.y'
+        kw['scaling'] = {src: _sscale(case['sscale'], shape)}
     spec = models.make(**kw)
     return spec
 
@@ -342,6 +382,16 @@ def check_case(case):
             out_slices[n] = None
     # (b) before every evaluation
     n_eval = 0
+    scal = {}
+    for n in ref.outs:
+        t = ref.tab[n]
+        meta = t.get('meta') or {}
+        if t['kind'] == 'ivc':
+            meta = [v for v in spec['ivcs'] if 'ivc.' + v['name'] == n][0]
+        if meta.get('ref') is not None or meta.get('ref0') is not None:
+            r = 1.0 if meta.get('ref') is None else np.asarray(meta['ref'], dtype=float).ravel()
+            r0 = 0.0 if meta.get('ref0') is None else np.asarray(meta['ref0'], dtype=float).ravel()
+            scal[n] = (r, r0)
     if out_slices and all(v is not None for v in out_slices.values()):
         for kind, path, inputs, snap in tr.records:
             if snap is None:
@@ -349,7 +399,13 @@ def check_case(case):
             n_eval += 1
             Uk = np.zeros(ref.N)
             for n in ref.outs:
-                Uk[ref.sl(n)] = snap[out_slices[n]]
+                v = snap[out_slices[n]]
+                if scal.get(n) is not None and not n.startswith(path + '.'):
+                    # the root vector is in the scaled state while a component runs; only the
+                    # running component's own variables are unscaled
+                    r, r0 = scal[n]
+                    v = r0 + (r - r0) * v
+                Uk[ref.sl(n)] = v
             comp = [c for c in spec['comps'] if c['path'] == path][0]
             for iv in comp['inputs']:
                 tgt = path + '.' + iv['name']
